@@ -95,6 +95,13 @@ def harness(tier, seed):
     def nan_ctrl(state, t, p, out):
         out[0] = float("nan") if t > 0.5 else 0.0
 
+    def nan_now(state, t, p, out):
+        out[0] = float("nan")
+
+    def nan_second(state, t, p, out):             # two control entries, the equations use the first only
+        out[0] = 0.25
+        out[1] = float("nan") if (t > 1.0 or state[1] < 0.5) else 0.0
+
     def inf_ctrl(state, t, p, out):
         out[0] = float("inf")
 
@@ -115,7 +122,12 @@ def harness(tier, seed):
                  ("integrator/blow-now", ctrl_eq, blow_now, p0, np.array([0.0, 1.0]), 1, 5.0),
                  ("integrator/blow-late", ctrl_eq, blow_late, p0, np.array([0.0, 1.0]), 1, 5.0),
                  ("integrator/nan", ctrl_eq, nan_ctrl, p0, np.array([0.0, 1.0]), 1, 5.0),
-                 ("integrator/inf", ctrl_eq, inf_ctrl, p0, np.array([0.0, 1.0]), 1, 5.0)]
+                 ("integrator/inf", ctrl_eq, inf_ctrl, p0, np.array([0.0, 1.0]), 1, 5.0),
+                 # a NaN the differential equations never look at (NaN compares false with everything: a range test
+                 # written as "too small or too large" lets it through)
+                 ("ignorednan/late", lin_eq, nan_ctrl, p0, np.array([1.0, -2.0]), 1, 5.0),
+                 ("ignorednan/now", lin_eq, nan_now, p0, np.array([1.0, -2.0]), 1, 5.0),
+                 ("ignorednan/second-entry", ctrl_eq, nan_second, p0, np.array([0.0, 1.0]), 2, 4.0)]
     for (name, eq, ctrl, params, start, cd, max_time) in programs:
         t0 = time.time()
         s0 = start.copy()
